@@ -4,7 +4,7 @@
 From Coq Require Import List ZArith QArith Bool.
 From PV Require Import lib.Sx lib.Str lib.Result.
 From PV Require Import model.Base model.TimeRead model.TimeWrite.
-From PV Require model.TextWrite model.TextRead model.DfxpWriteDoc model.DfxpReadLines.
+From PV Require model.TextWrite model.TextRead model.DfxpWriteDoc model.DfxpReadLines model.SamiWriteDoc model.SamiReadLines.
 Import ListNotations.
 Open Scope Z_scope.
 
@@ -115,7 +115,9 @@ Definition hop_doc (f : fmt) (cs : list (Z * Z * list str)) : result (list (Z * 
   | FVtt => vtt_read_doc (vtt_write_doc cs)
   (* wave 7: the DFXP document (DfxpWriteDoc, one language "en-US") read by the string-level reader model *)
   | FDfxp => DfxpReadLines.dfxp_read_lines (DfxpWriteDoc.dfxp_write_doc (lit "en-US") cs)
-  | _ => Err ENotImplemented
+  (* round 4: the SAMI document (SamiWriteDoc, one language "en-US") read by the string-level SAMI reader model *)
+  | FSami => SamiReadLines.sami_read_lines [] [(lower (lit "en-US"), lit "en-US")]
+                                            (SamiWriteDoc.sami_body_text (lit "en-US") cs)
   end.
 Fixpoint run_doc (chain : list fmt) (cs : list (Z * Z * list str)) : result (list (Z * Z * list str)) :=
   match chain with
